@@ -318,8 +318,17 @@ def check_C01(ctx, rep):
             if f.get('crate') == FW and cn in REGULAR_PRE and callee_key(f) == F[cn].key:
                 ok = ev(b, len(fa.blocks[b]['s']))
                 rep.ob('C01.R1', fn, 'precondition-Regular:' + cn, ok, 'current_state is known not to be END when %s is called' % cn)
-    from .rules_valid import dist_ctor_table, uniform_guard
+    from .rules_valid import dist_ctor_table, uniform_guard, check_C12
     ctor_ok = dist_ctor_table(ctx)
+    # IDX-STATE relies on validation bounding transition targets and rejecting empty machines (C12.R3/R4)
+    sub = Report('C12', 'sub')
+    try:
+        check_C12(ctx, sub)
+        bad = [o['construct'] for o in sub.obligations if not o['ok'] and o['construct'] in ('target-bound', 'zero-states-rejected', 'every-state-validated', 'state-error-propagated', 'every-machine-validated', 'machine-error-propagated', 'validate-before-Ok')]
+    except AnchorMissing as e:
+        bad = ['anchor ' + str(e)]
+    rep.ob('C01.R1', prog.fn(FW, 'State', 'validate'), 'IDX-STATE-premise:validated-targets-in-range', not bad,
+           'validation bounds every transition target and rejects empty machines: %s' % (bad or 'holds'))
     n_sites = {'assert': 0, 'index': 0, 'unwrap': 0, 'range': 0, 'other': 0}
     for fn in own:
         fa = an.get(fn)
